@@ -35,12 +35,70 @@ def check_runs(chk, runs, cases):
     return bad
 
 
+def gen_sloop(rng):
+    """one scripted run of the single solver: start score, operator invocations (resets, work score, can-improve)"""
+    K = 1023
+    start = rng.randint(1, K)
+    lines = ["start %d" % start]
+    low = start
+    for _ in range(rng.randint(1, 25)):
+        resets = []
+        if rng.random() < 0.35:
+            for _ in range(rng.randint(1, 2)):
+                resets.append(rng.choice([rng.randint(0, K), rng.randint(low, K), max(0, low - rng.randint(0, 40))]))
+        r = rng.random()
+        w = rng.randint(0, max(0, low - 1)) if r < 0.4 else (low if r < 0.5 else rng.randint(0, K))
+        ci = 1 if rng.random() < 0.8 else 0
+        lines.append("exec %d %d %s" % (ci, w, " ".join(map(str, resets))))
+        low = min([low, w] + resets)
+    return lines
+
+
+def scripted_stage(chk, tier, seed):
+    """the REAL solver loop (NewSkeletonSolver.Solve / invoke / Reset) driven by a scripted operator
+    vs Model/SolverLoop.v srun: scores sent on the channel, best and work score at the end"""
+    import random
+    import common as C
+    import os
+    rng = random.Random(seed * 131 + 6)
+    n = 400 if tier == "quick" else 20000
+    blocks = [(str(i), gen_sloop(rng)) for i in range(n)]
+    cf = os.path.join(C.BUILD, "c06_sloop_%s.case" % tier)
+    C.write_cases(cf, blocks)
+    (rc1, go_out, go_err), (rc2, ml_out, ml_err) = C.run_both("sloop", cf)
+    chk.ob("scripted solver: harness and model runner exit normally", rc1 == 0 and rc2 == 0, (go_err + ml_err)[-300:])
+    g, m = C.group_lines(go_out), C.group_lines(ml_out)
+    bad = []
+    nres = nworse = 0
+    for cid, lines in blocks:
+        gl, ml = g.get(cid, []), m.get(cid, [])
+        nres += sum(1 for l in lines if len(l.split()) > 3)
+        if gl != ml and len(bad) < 5:
+            bad.append({"case": lines, "impl": gl, "model": ml})
+        sent = [int(x) for l in gl if l.startswith("sent") for x in l.split()[1:]]
+        fails = [("scores on the channel not strictly decreasing: %d then %d" % (a, b)) for a, b in zip(sent, sent[1:]) if not b < a]
+        if not sent:
+            fails.append("nothing sent: %s" % gl[:2])
+        if fails:
+            nworse += 1
+            chk.violation({"kind": "history", "what": fails[0], "sent": sent, "case": lines,
+                           "how_to_replay": "nrharness sloop <file with: case x / these lines / end>"})
+    chk.ob("scripted solver loop = SolverLoop.srun on %d scripted runs (%d with Solver.Reset calls)" % (n, nres), not bad,
+           str(bad[0])[:600] if bad else "")
+    if bad and chk.mismatch is None:
+        chk.mismatch = bad[0]
+    chk.ob("scripted solver loop: channel strictly decreasing on the implementation", nworse == 0)
+    chk.ev.cov["scripted_runs"] = n
+    chk.ev.cov["scripted_runs_with_reset"] = nres
+
+
 def run(tier, seed, replay=None):
     chk = FW.Check(PID, tier, seed)
-    if not chk.builds(model=False, harness=True, skeletons=True):
+    if not chk.builds(model=True, harness=True, skeletons=True):
         return chk.finish()
     chk.proofs()
     chk.oblig("O_C06")
+    scripted_stage(chk, tier, seed)
     n = 40 if tier == "quick" else 600
     cases = S.make_solve_cases(seed * 31 + 6, n, settings, size="small" if tier == "quick" else "medium")
     runs, rc, err = S.run_solve(cases, "c06_" + tier)
